@@ -1,7 +1,123 @@
+import MythVerif.Model.Uncond
 import Driver.Util
-/-! `drv_uncond`: stub, to be filled in -/
+/-! `drv_uncond`: trace acceptor.  Replays a controller trace of a whole-library run on the
+uncondition-variable model running side by side with the protocol monitor: every event on a
+variable declared by `obj <name> uncond` must be an enabled step of the library model *and* be
+accepted by `proto` (so the test program itself is checked to follow the documented protocol), with
+the same observed value (`u->th` read by the signaler, the thread it pushes).
+
+* library points: `BLOCK_BEGIN`, `BLOCK_CB_BEGIN`, `BLOCK_CB_ENQ`, `SPIN_UC_SIG_READ`, `UC_SIG_READ`,
+  `UC_SIG_CLEAR`, `WAKE_PUSH` (`BLOCK_CB_END` carries no access);
+* program notes: `uc_announce` (after the user-level atomic step that marks the waiter, before
+  `myth_uncond_wait`), `uc_claim` (after the atomic step that saw and cleared the mark, before
+  `myth_uncond_signal`), `uc_sigret` (signal returned), `uc_resumed` (wait returned).
+
+At the end of a complete trace the monitor must be `free` and every thread idle. -/
 namespace Driver.Uncond
+open MythVerif MythVerif.Uncond
+
+structure Obj where
+  name : String
+  st : St
+  ph : Phase
+  tids : List Nat := []
+  early : Nat := 0       -- rendezvous in which the signaler had to spin (signal before the waiter published)
+  rdv : Nat := 0         -- completed rendezvous
+  spun : Bool := false
+
+structure Acc where
+  objs : List Obj := []
+  line : Nat := 0
+  accepted : Nat := 0
+  err : Option String := none
+  verdict : Bool := false
+
+def showPc : PC → String
+  | .idle => "idle" | .ann => "ann" | .sw => "sw" | .cb => "cb" | .asleep => "asleep" | .runnable => "runnable"
+  | .sg => "sg" | .sc x => s!"sc{x}" | .sp x => s!"sp{x}" | .sd => "sd"
+
+def showPh : Phase → String
+  | .free => "free" | .announced w => s!"announced({w})" | .claimed w q => s!"claimed({w},{q})"
+
+def showTh : Option Nat → String
+  | none => "0" | some x => s!"t{x}"
+
+def toLbl (pt : String) (cur : Option Nat) (tb : Option Nat) : Option Lbl :=
+  match pt with
+  | "uc_announce" => cur.map .announce
+  | "BLOCK_BEGIN" => tb.map .blockBegin
+  | "BLOCK_CB_BEGIN" => tb.map .cbBegin
+  | "BLOCK_CB_ENQ" => tb.map .cbPublish
+  | "uc_resumed" => cur.map .resume
+  | "uc_claim" => cur.map .claim
+  | "SPIN_UC_SIG_READ" => cur.map .sigSpin
+  | "UC_SIG_READ" => match cur, tb with
+      | some t, some x => some (.sigRead t x)
+      | _, _ => none
+  | "UC_SIG_CLEAR" => cur.map .sigClear
+  | "WAKE_PUSH" => match cur, tb with
+      | some t, some x => some (.sigPush t x)
+      | _, _ => none
+  | "uc_sigret" => cur.map .sigRet
+  | _ => none
+
+def relevant (pt : String) : Bool :=
+  ["uc_announce", "BLOCK_BEGIN", "BLOCK_CB_BEGIN", "BLOCK_CB_ENQ", "uc_resumed", "uc_claim",
+   "SPIN_UC_SIG_READ", "UC_SIG_READ", "UC_SIG_CLEAR", "WAKE_PUSH", "uc_sigret"].contains pt
+
+def stepObj (acc : Acc) (line : String) (oname pt : String) (cur tb : Option Nat) : Acc :=
+  match acc.objs.find? (·.name == oname) with
+  | none => acc      -- an object this acceptor does not own
+  | some o =>
+    match toLbl pt cur tb with
+    | none => { acc with err := some s!"MISMATCH line {acc.line}: cannot attribute `{line.trimAscii.toString}` to a thread" }
+    | some l =>
+      match step o.st l, proto o.ph l with
+      | some st', some ph' =>
+        let t := l.actor
+        let o' : Obj := { o with st := st', ph := ph', tids := if o.tids.contains t then o.tids else t :: o.tids,
+                                  spun := match l with | .sigSpin _ => true | .claim _ => false | _ => o.spun,
+                                  early := match l with | .sigRead _ _ => if o.spun then o.early + 1 else o.early | _ => o.early,
+                                  rdv := match l with | .resume _ => o.rdv + 1 | _ => o.rdv }
+        { acc with objs := acc.objs.map (fun p => if p.name == oname then o' else p), accepted := acc.accepted + 1 }
+      | none, _ =>
+        { acc with err := some s!"MISMATCH line {acc.line}: model cannot do `{line.trimAscii.toString}`: th={showTh o.st.th} runq={o.st.runq} phase={showPh o.ph} pc[{l.actor}]={showPc (o.st.pc l.actor)}" }
+      | some _, none =>
+        { acc with err := some s!"MISMATCH line {acc.line}: the program leaves the usage protocol at `{line.trimAscii.toString}`: phase={showPh o.ph}" }
+
+def feed (acc : Acc) (line : String) : Acc :=
+  if acc.err.isSome then acc else
+  let acc := { acc with line := acc.line + 1 }
+  match Driver.words line with
+  | ["obj", name, "uncond"] => { acc with objs := { name := name, st := init, ph := .free } :: acc.objs }
+  | ["verdict", _] => { acc with verdict := true }
+  | ["note", _, cur, pt, oname] =>
+      if relevant pt then stepObj acc line oname pt cur.toNat? none else acc
+  | _ =>
+  match Driver.parseEv line with
+  | none => acc
+  | some e =>
+    if relevant e.pt then stepObj acc line e.a e.pt e.cur (Driver.parseTag e.b) else acc
+
+def finalCheck (acc : Acc) : Option String :=
+  if acc.verdict then none else
+  acc.objs.findSome? fun o =>
+    if o.ph != .free then some s!"MISMATCH at end of trace: rendezvous on {o.name} still in flight (phase={showPh o.ph})"
+    else match o.tids.find? (fun t => o.st.pc t != .idle) with
+      | some t => some s!"MISMATCH at end of trace: thread {t} is still inside wait/signal on {o.name} (pc={showPc (o.st.pc t)})"
+      | none => none
+
 def run (_args : List String) : IO UInt32 := do
-  IO.eprintln "drv_uncond: not implemented"
-  return 2
+  let stdin ← IO.getStdin
+  let acc ← Driver.forLines stdin ({} : Acc) fun a line => pure (feed a line)
+  match acc.err with
+  | some e => IO.println e; return 0
+  | none =>
+    match finalCheck acc with
+    | some e => IO.println e; return 0
+    | none =>
+      let rdv := acc.objs.foldl (fun n o => n + o.rdv) 0
+      let early := acc.objs.foldl (fun n o => n + o.early) 0
+      IO.println s!"accepted {acc.accepted} rendezvous={rdv} early={early}"; return 0
+
 end Driver.Uncond
